@@ -1093,6 +1093,150 @@ def sort_cases(ctx, rng, rounds):
 
 
 
+# ----------------------------------------------------------------------------------------------
+# round 6: default arguments after explicit non-default ones; temporary substitution maps in a row
+# ----------------------------------------------------------------------------------------------
+def default_apis(env, fam, f):
+    """(name, [calls with an explicit NON-default value of an optional argument], the call with the argument omitted)"""
+    import pysmt.shortcuts as sc
+    m = env.formula_manager
+    Pl = fam.pool
+    sub = {Pl["b"][0]: Pl["b"][1]}
+
+    def script_text(**kw):
+        buf = io.StringIO()
+        smtlibscript_from_formula(f).serialize(buf, **kw)
+        return buf.getvalue()
+    sizes = list(range(1, 6))
+    return [
+        ("FNode.size()", [(lambda k=k: f.size(k)) for k in sizes], lambda: f.size()),
+        ("get_formula_size(f)", [(lambda k=k: sc.get_formula_size(f, k)) for k in sizes], lambda: sc.get_formula_size(f)),
+        ("sizeo.get_size(f)", [(lambda k=k: env.sizeo.get_size(f, k)) for k in sizes] +
+         [(lambda k=k: env.sizeo.get_size(f, measure=k)) for k in (3, 5)], lambda: env.sizeo.get_size(f)),
+        ("FNode.serialize()", [lambda: f.serialize(threshold=3), lambda: f.serialize(2)], lambda: f.serialize()),
+        ("serialize(f)", [lambda: sc.serialize(f, threshold=3)], lambda: sc.serialize(f)),
+        ("FNode.to_smtlib()", [lambda: f.to_smtlib(daggify=False) if tree_size(f) < 3000 else None],
+         lambda: f.to_smtlib()),
+        ("to_smtlib(f)", [lambda: sc.to_smtlib(f, daggify=False) if tree_size(f) < 3000 else None],
+         lambda: sc.to_smtlib(f)),
+        ("script.serialize(buf)", [lambda: script_text(daggify=False) if tree_size(f) < 3000 else None],
+         lambda: script_text()),
+        ("typeso.get_types(f)", [lambda: env.typeso.get_types(f, custom_only=True)], lambda: env.typeso.get_types(f)),
+        ("FNode.substitute(subs)", [lambda: f.substitute(sub, interpretations=interpretations_of(env, fam, 1)),
+                                   lambda: f.substitute(sub, interpretations=interpretations_of(env, fam, 2))],
+         lambda: f.substitute(sub)),
+        ("smtlibscript_from_formula(f)", [lambda: str(smtlibscript_from_formula(f, logic="QF_UFLIRA").commands[0].args)],
+         lambda: str(smtlibscript_from_formula(f).commands[0].args)),
+        ("Symbol(name)", [lambda: m.Symbol("dflt_a", types.INT), lambda: m.Symbol("dflt_b", types.REAL)],
+         lambda: m.Symbol("dflt_c")),
+        ("FreshSymbol()", [lambda: sc.FreshSymbol(types.INT, "dq%d"), lambda: sc.FreshSymbol(types.REAL, "dq%d")],
+         lambda: str(sc.FreshSymbol().symbol_type())),
+        ("get_logic(f)", [lambda: str(get_logic(m.And(f, m.Equals(Pl["v"][0], Pl["v"][0])), env))],
+         lambda: str(get_logic(f))),
+    ]
+
+
+def default_argument_cases(ctx, rng, pools, quick):
+    for seed, n in pools:
+        probe_env, probe_fam = P15.make_env(seed, n)
+        n_formulas = len(formulas(probe_env, probe_fam))
+        n_apis = len(default_apis(probe_env, probe_fam, probe_fam.phi))
+        for fi in [0, 2, n_formulas - 1] + [rng.randrange(n_formulas) for _ in range(1 if quick else 6)]:
+            for ai in range(n_apis):
+                def run(hist):
+                    env, fam = P15.make_env(seed, n)
+                    push_env(env)
+                    try:
+                        name, explicit, default = default_apis(env, fam, formulas(env, fam)[fi])[ai]
+                        for h in hist:
+                            P15.outcome(explicit[h % len(explicit)])
+                        k, v = P15.outcome(default)
+                        return name, len(explicit), (k, W.result_key(v, ac=True) if k == "ok" else v)
+                    finally:
+                        pop_env()
+                name, n_exp, ref = run([])
+                hists = [[h] for h in range(n_exp)] + [list(range(n_exp))]
+                for hist in hists:
+                    _, _, got = run(hist)
+                    ctx.case(("default-arg", name, tuple(hist)))
+                    ctx.count("default-argument-cases")
+                    if got != ref:
+                        ctx.report_s({"oracle": "history-vs-twin", "probe": "default:" + name, "hist": "explicit-argument",
+                                      "tag": "default-argument"},
+                                     "%s with the optional argument omitted gives %s after the same API was called with "
+                                     "explicit non-default values (calls %s of its list) on formula %d of pool (%d, %d); "
+                                     "in a twin environment without these calls %s" % (
+                                         name, str(got)[:100], hist, fi, seed, n, str(ref)[:100]),
+                                     {"default_args": True, "seed": seed, "n": n, "formula": fi, "api": ai, "calls": hist})
+                        break
+
+
+def inline_map_cases(ctx, rng, rounds):
+    """consecutive substitute calls on quantified formulas (the same tuple of bound variables) with DIFFERENT temporary
+    maps: each map is built inline in the call and dies with it; every result against the same call in a new
+    environment"""
+    import pysmt.shortcuts as sc
+    INT = types.INT
+
+    def build(env):
+        m = env.formula_manager
+        x, y, z, w = [m.Symbol(nm, INT) for nm in ("imx", "imy", "imz", "imw")]
+        q1 = m.And(m.LE(x, y), m.ForAll([z], m.LT(m.Plus(x, z), y)))
+        q2 = m.Or(m.Exists([z], m.Equals(m.Times(x, z), y)), m.LT(y, x))
+        q3 = m.ForAll([z, w], m.Implies(m.LT(z, x), m.Exists([z], m.LT(m.Plus(z, w, x), y))))
+        q4 = m.And(m.ForAll([z], m.LT(x, z)), m.ForAll([z], m.LT(y, z)), m.Exists([z], m.LT(m.Plus(x, y), z)))
+        return m, (x, y, z, w), [q1, q2, q3, q4]
+
+    def one(env, m, vs, qs, step):
+        fi, route, shape, c = step
+        x, y, z, w = vs
+        f = qs[fi]
+        if shape == 0:
+            th = {0: lambda: f.substitute({x: m.Int(c)}), 1: lambda: sc.substitute(f, {x: m.Int(c)}),
+                  2: lambda: env.substituter.substitute(f, {x: m.Int(c)})}[route]
+        elif shape == 1:
+            th = {0: lambda: f.substitute({x: m.Int(c), y: m.Int(c + 1)}),
+                  1: lambda: sc.substitute(f, {x: m.Int(c), y: m.Int(c + 1)}),
+                  2: lambda: env.substituter.substitute(f, {x: m.Int(c), y: m.Int(c + 1)})}[route]
+        else:
+            th = {0: lambda: f.substitute({y: m.Plus(x, m.Int(c))}), 1: lambda: sc.substitute(f, {y: m.Plus(x, m.Int(c))}),
+                  2: lambda: env.substituter.substitute(f, {y: m.Plus(x, m.Int(c))})}[route]
+        k, v = P15.outcome(th)
+        return (k, W.result_key(v, ac=True) if k == "ok" else v)
+    for it in range(rounds):
+        length = rng.randint(20, 40)
+        fixed = it % 3 == 0
+        f0, s0, r0 = rng.randrange(4), rng.randrange(3), rng.randrange(3)
+        steps = [(f0 if fixed else rng.randrange(4), r0 if fixed else rng.randrange(3), s0 if fixed else rng.randrange(3),
+                  j + 1) for j in range(length)]
+        env = Environment()
+        push_env(env)
+        try:
+            m, vs, qs = build(env)
+            got = [one(env, m, vs, qs, st) for st in steps]
+        finally:
+            pop_env()
+        ctx.case(("inline-maps", it))
+        ctx.count("inline-map-sequences")
+        for j, st in enumerate(steps):
+            env2 = Environment()
+            push_env(env2)
+            try:
+                m2, vs2, qs2 = build(env2)
+                ref = one(env2, m2, vs2, qs2, st)
+            finally:
+                pop_env()
+            if got[j] != ref:
+                ctx.report_s({"oracle": "history-vs-twin", "probe": "substitute", "hist": "substitute",
+                              "tag": "inline-maps"},
+                             "call %d of %d consecutive substitute calls with temporary maps (formula q%d, route %d, map "
+                             "shape %d, constant %d) differs from the same call in a new environment" % (
+                                 j, len(steps), st[0] + 1, st[1], st[2], st[3]),
+                             {"inline_maps": True, "steps": [list(s_) for s_ in steps[:j + 1]]})
+                break
+
+
+
 def run(ctx):
     sys.setrecursionlimit(1000)
     rng = ctx.rng
@@ -1116,6 +1260,8 @@ def run(ctx):
     bare_const_cases(ctx)
     preference_cases(ctx, rng, 6 if quick else 100)
     sort_cases(ctx, rng, 40 if quick else 1500)
+    default_argument_cases(ctx, rng, pools[:2] if quick else pools[:10], quick)
+    inline_map_cases(ctx, rng, 12 if quick else 200)
     # 1b. fresh symbols next to user symbols named like fresh templates
     fresh_symbol_cases(ctx, rng, quick)
     # 2. random histories
@@ -1181,6 +1327,12 @@ def replay(ctx, rep):
         return
     if "bare_const" in r:
         bare_const_cases(ctx)
+        return
+    if r.get("default_args"):
+        default_argument_cases(ctx, ctx.rng, [(r["seed"], r["n"])], False)
+        return
+    if r.get("inline_maps"):
+        inline_map_cases(ctx, ctx.rng, 60)
         return
     if "prefs" in r:
         preference_cases(ctx, ctx.rng, 20)
